@@ -3,7 +3,7 @@ Import ListNotations.
 Require Import Mini Spec.
 
 Definition vis (vb:bool) (e:err) : option err :=
-  match e with EVerbose _ => if vb then Some e else None | EHard _ => Some e end.
+  match e with EVerbose _ => if vb then Some e else None | _ => Some e end.
 
 Definition R (found:option (list json)) (t:trace) (vb:bool) (r:resp) : Prop :=
   match found with
@@ -72,7 +72,7 @@ Proof. reflexivity. Qed.
 
 Ltac ret := match goal with H : Ret (_, _) = Ret (?r, ?s) |- _ => let Hr := fresh "Hr" in let Hs := fresh "Hs" in injection H as Hr Hs; subst r; try subst s; clear H end.
 
-Definition good (rt:json) (laxm:bool) (s:st) := lax s = laxm /\ root s = rt.
+Definition good (rt:json) (laxm:bool) (s:st) := lax s = laxm /\ root s = rt /\ cancel_at s = None.
 
 Definition refines (rt:json) (laxm:bool) (f : req -> st -> outcome (resp*st)) : Prop :=
   (forall n v found u s r s', f (RItem n v found u) s = Ret (r, s') -> good rt laxm s ->
@@ -373,10 +373,10 @@ Proof.
     apply R_upgrade; auto; try congruence. destruct found; [discriminate|discriminate].
 Qed.
 
-Lemma sem_pred_hard rt laxm p : forall c ig v e, snd (sem_pred rt laxm p c ig v) = Some e -> exists n, e = EHard n.
+Lemma sem_pred_hard rt laxm p : forall c ig v e, snd (sem_pred rt laxm p c ig v) = Some e -> forall vb, vis vb e = Some e.
 Proof.
-  assert (HH: forall o e, hard o = Some e -> exists n, e = EHard n).
-  { intros [[n|n]|] e; cbn; intro H; try discriminate. inv H. eauto. }
+  assert (HH: forall o e, hard o = Some e -> forall vb, vis vb e = Some e).
+  { intros [[n|n|]|] e; cbn; intro H; try discriminate; inv H; reflexivity. }
   induction p as [e0|l r|a IHa b IHb|a IHa|a IHa]; intros c ig v e.
   - rewrite sem_pred_exists. cbn zeta.
     destruct (sem_chain rt laxm e0 c ig laxm v) as [a f]. cbn [fst snd].
@@ -393,8 +393,8 @@ Proof.
     destruct (sem_pred rt laxm a c ig v) as [[| |] [ea|]]; cbn in *; intro H; inv H; eauto.
 Qed.
 
-Lemma R_hardfail found vb n : R found (tfail (EHard n)) vb (mk Failed (Some (EHard n)) found).
-Proof. destruct found; cbn; rewrite ?app_nil_r; auto. Qed.
+Lemma R_hardfail found vb e : (forall vb, vis vb e = Some e) -> R found (tfail e) vb (mk Failed (Some e) found).
+Proof. intro H. destruct found; cbn; rewrite ?app_nil_r, H; auto. Qed.
 
 Lemma chain_filter rt laxm p next c ig x :
   sem_chain rt laxm (SFilter p :: next) c ig false x =
@@ -426,9 +426,9 @@ Proof.
     - pose proof (next_ok _ _ _ Hfr Hrf _ _ _ _ _ _ H (good_ctx _ _ _ _ K G)) as N.
       rewrite (ctx_cur _ _ K), (ctx_ign _ _ K), (ctx_vb _ _ K) in N. exact N.
     - destruct (rerr r0) as [e|] eqn:ER; ret; [|apply R_notfound].
-      destruct (sem_pred_hard rt laxm p v (ign s) v e) as [n Hn]; [rewrite SP; reflexivity|]. subst e. eapply R_hardfail.
+      apply R_hardfail. apply (sem_pred_hard rt laxm p v (ign s) v e). rewrite SP; reflexivity.
     - destruct (rerr r0) as [e|] eqn:ER; ret; [|apply R_notfound].
-      destruct (sem_pred_hard rt laxm p v (ign s) v e) as [n Hn]; [rewrite SP; reflexivity|]. subst e. eapply R_hardfail. }
+      apply R_hardfail. apply (sem_pred_hard rt laxm p v (ign s) v e). rewrite SP; reflexivity. }
   destruct v as [|z|l|l]; try (eapply ONE; exact H).
   destruct u; [|eapply ONE; exact H].
   pose proof Hrf as [_ [H2 _]]. specialize (H2 _ _ _ _ _ _ _ _ _ _ _ H G).
@@ -478,12 +478,17 @@ Qed.
 
 Lemma item_ok (rt:json) (laxm:bool) (self:req -> st -> outcome (resp*st)) (Hfr:frames self) (Hrf:refines rt laxm self)
   n v found u s r s' :
-  n <> [] ->
   execItem self n v found u s = Ret (r, s') -> good rt laxm s ->
   R found (sem_chain rt laxm n (cur s) (ign s) u v) (verbose s) r.
 Proof.
-  unfold execItem; intros NE H G. destruct n as [|x next]; [congruence|]. clear NE.
-  pose proof G as [GL GR].
+  unfold execItem; intros H G0.
+  assert (DN: done_now s = false) by (unfold done_now; destruct G0 as [_ [_ GC]]; rewrite GC; reflexivity).
+  rewrite DN in H.
+  assert (G: good rt laxm (tick s)) by exact G0.
+  change (cur s) with (cur (tick s)); change (ign s) with (ign (tick s)); change (verbose s) with (verbose (tick s)).
+  generalize dependent (tick s). clear s G0 DN. intros s H G.
+  pose proof G as [GL [GR GC]].
+  destruct n as [|x next]; [ret; apply R_ret|].
   destruct x as [| |k| |f l|p|z].
   - cbn [sem_chain sem_step]. pose proof (next_ok _ _ _ Hfr Hrf _ _ _ _ _ _ H G) as N. rewrite GR in N. exact N.
   - cbn [sem_chain sem_step]. eapply next_ok; eauto.
@@ -618,9 +623,7 @@ Theorem refine_body (rt:json) (laxm:bool) (self:req -> st -> outcome (resp*st)) 
   frames self -> refines rt laxm self -> refines rt laxm (body self).
 Proof.
   intros Hfr Hrf. repeat split.
-  - intros n v found u s r s' H G. cbn [body] in H. destruct n as [|x n'].
-    + cbn in H. ret. apply R_ret.
-    + eapply item_ok; eauto. discriminate.
+  - intros n v found u s r s' H G. cbn [body] in H. eapply item_ok; eauto.
   - intros. eapply anyitem_ok; eauto.
   - intros. eapply bool_ok; eauto.
 Qed.
@@ -633,7 +636,7 @@ Proof.
 Qed.
 
 (* The public statement: Query (collecting, verbose) and Exists (non-collecting) are projections of one trace *)
-Definition init (rt:json) (laxm:bool) (vb:bool) : st := {| root:=rt; cur:=rt; ign:=laxm; verbose:=vb; lax:=laxm |}.
+Definition init (rt:json) (laxm:bool) (vb:bool) : st := {| root:=rt; cur:=rt; ign:=laxm; verbose:=vb; lax:=laxm; polls:=0; cancel_at:=None |}.
 
 Corollary query_is_trace fuel rt laxm vb n r s' :
   run fuel (RItem n rt (Some []) laxm) (init rt laxm vb) = Ret (r, s') ->
@@ -642,7 +645,7 @@ Corollary query_is_trace fuel rt laxm vb n r s' :
   match snd t with Some e => rstat r = Failed /\ rerr r = vis vb e | None => rstat r <> Failed /\ rerr r = None end.
 Proof.
   intros H. pose proof (refine_run rt laxm fuel) as [H1 _].
-  specialize (H1 _ _ _ _ _ _ _ H (conj eq_refl eq_refl)). exact H1.
+  specialize (H1 _ _ _ _ _ _ _ H (conj eq_refl (conj eq_refl eq_refl))). exact H1.
 Qed.
 
 Corollary exists_is_trace fuel rt laxm vb n r s' :
@@ -654,7 +657,7 @@ Corollary exists_is_trace fuel rt laxm vb n r s' :
   | [], None => rstat r = NotFound /\ rerr r = None end.
 Proof.
   intros H. pose proof (refine_run rt laxm fuel) as [H1 _].
-  specialize (H1 _ _ _ _ _ _ _ H (conj eq_refl eq_refl)). exact (proj2 H1).
+  specialize (H1 _ _ _ _ _ _ _ H (conj eq_refl (conj eq_refl eq_refl))). exact (proj2 H1).
 Qed.
 Print Assumptions query_is_trace.
 Print Assumptions exists_is_trace.
